@@ -13,6 +13,8 @@ print("|---|---|---|---|")
 for f in sorted(glob.glob(os.path.join(root, "seeded", "*", "meta.json"))):
     m = json.load(open(f))
     caught = "yes" if m.get("caught_by_check") else "NO"
+    if m.get("obsolete_after"):
+        caught = "obsolete: no longer breaks the property after " + m["obsolete_after"].split(":")[0] + " (was caught before)"
     if m.get("history"):
         caught += " (after strengthening; see meta.json)"
     print(f"| {m['id']} | {m['breaks_property']} | {m['needs_to_manifest'][:230]} | {caught} |")
